@@ -847,6 +847,63 @@ fn should_do_dollar_command_extension(line: &str) -> bool {
     !libs::re::re_contains(line, r"='.*\$\([^\)]+\).*'$")
 }
 
+/// Find the first `$(...)` of `line`, with balanced parentheses.
+/// Returns the byte offsets of its `$` and of the end of its closing `)`.
+fn find_dollar_cmd(line: &str) -> Option<(usize, usize)> {
+    let bytes = line.as_bytes();
+    let mut i = 0;
+    while i + 1 < bytes.len() {
+        if bytes[i] == b'$' && bytes[i + 1] == b'(' {
+            let mut depth = 0;
+            let mut j = i + 1;
+            while j < bytes.len() {
+                if bytes[j] == b'(' {
+                    depth += 1;
+                } else if bytes[j] == b')' {
+                    depth -= 1;
+                    if depth == 0 {
+                        break;
+                    }
+                }
+                j += 1;
+            }
+            if j < bytes.len() && j > i + 2 {
+                return Some((i, j + 1));
+            }
+            // empty or unbalanced: not a command substitution
+            i += 2;
+            continue;
+        }
+        i += 1;
+    }
+    None
+}
+
+/// Run `cmd` and return what it wrote to stdout, without the trailing
+/// newlines. Its stderr is passed on to the shell's stderr.
+fn run_for_substitution(sh: &mut Shell, cmd: &str) -> String {
+    match CommandLine::from_line(cmd, sh) {
+        Ok(c) => {
+            log!("run subcmd: {:?}", &cmd);
+            let (term_given, cr) = core::run_pipeline(sh, &c, true, true, false);
+            if term_given {
+                unsafe {
+                    let gid = libc::getpgid(0);
+                    give_terminal_to(gid);
+                }
+            }
+            if !cr.stderr.is_empty() {
+                let _ = write!(&mut ::std::io::stderr(), "{}", cr.stderr);
+            }
+            cr.stdout.trim_end_matches('\n').to_string()
+        }
+        Err(e) => {
+            println_stderr!("cicada: {}", e);
+            String::new()
+        }
+    }
+}
+
 fn do_command_substitution_for_dollar(sh: &mut Shell, tokens: &mut types::Tokens) {
     let mut idx: usize = 0;
     let mut buff: HashMap<usize, String> = HashMap::new();
@@ -857,55 +914,18 @@ fn do_command_substitution_for_dollar(sh: &mut Shell, tokens: &mut types::Tokens
             continue;
         }
 
-        let mut line = token.to_string();
-        loop {
-            if !should_do_dollar_command_extension(&line) {
-                break;
-            }
-
-            let ptn_cmd = r"\$\((.+)\)";
-            let cmd = match libs::re::find_first_group(ptn_cmd, &line) {
-                Some(x) => x,
-                None => {
-                    println_stderr!("cicada: calculator: no first group");
-                    return;
-                }
-            };
-
-            let cmd_result = match CommandLine::from_line(&cmd, sh) {
-                Ok(c) => {
-                    log!("run subcmd dollar: {:?}", &cmd);
-                    let (term_given, cr) = core::run_pipeline(sh, &c, true, true, false);
-                    if term_given {
-                        unsafe {
-                            let gid = libc::getpgid(0);
-                            give_terminal_to(gid);
-                        }
-                    }
-
-                    cr
-                }
-                Err(e) => {
-                    println_stderr!("cicada: {}", e);
-                    continue;
-                }
-            };
-
-            let output_txt = cmd_result.stdout.trim();
-
-            let ptn = r"(?P<head>[^\$]*)\$\(.+\)(?P<tail>.*)";
-            let re;
-            if let Ok(x) = Regex::new(ptn) {
-                re = x;
-            } else {
-                return;
-            }
-
-            let to = format!("${{head}}{}${{tail}}", output_txt);
-            let line_ = line.clone();
-            let result = re.replace(&line_, to.as_str());
-            line = result.to_string();
+        // one pass from left to right: the output that has been spliced in
+        // is literal text and is not looked at again.
+        let mut line = String::new();
+        let mut rest = token.to_string();
+        while let Some((start, end)) = find_dollar_cmd(&rest) {
+            let cmd = rest[start + 2..end - 1].to_string();
+            let output_txt = run_for_substitution(sh, &cmd);
+            line.push_str(&rest[..start]);
+            line.push_str(&output_txt);
+            rest = rest[end..].to_string();
         }
+        line.push_str(&rest);
 
         buff.insert(idx, line.clone());
         idx += 1;
@@ -922,26 +942,7 @@ fn do_command_substitution_for_dot(sh: &mut Shell, tokens: &mut types::Tokens) {
     for (sep, token) in tokens.iter() {
         let new_token: String;
         if sep == "`" {
-            log!("run subcmd dot1: {:?}", token);
-            let cr = match CommandLine::from_line(token, sh) {
-                Ok(c) => {
-                    let (term_given, _cr) = core::run_pipeline(sh, &c, true, true, false);
-                    if term_given {
-                        unsafe {
-                            let gid = libc::getpgid(0);
-                            give_terminal_to(gid);
-                        }
-                    }
-
-                    _cr
-                }
-                Err(e) => {
-                    println_stderr!("cicada: {}", e);
-                    continue;
-                }
-            };
-
-            new_token = cr.stdout.trim().to_string();
+            new_token = run_for_substitution(sh, token);
         } else if sep == "\"" || sep.is_empty() {
             let re;
             if let Ok(x) = Regex::new(r"^([^`]*)`([^`]+)`(.*)$") {
@@ -969,27 +970,7 @@ fn do_command_substitution_for_dot(sh: &mut Shell, tokens: &mut types::Tokens) {
                 for cap in re.captures_iter(&_token) {
                     _head = cap[1].to_string();
                     _tail = cap[3].to_string();
-                    log!("run subcmd dot2: {:?}", &cap[2]);
-
-                    let cr = match CommandLine::from_line(&cap[2], sh) {
-                        Ok(c) => {
-                            let (term_given, _cr) = core::run_pipeline(sh, &c, true, true, false);
-                            if term_given {
-                                unsafe {
-                                    let gid = libc::getpgid(0);
-                                    give_terminal_to(gid);
-                                }
-                            }
-
-                            _cr
-                        }
-                        Err(e) => {
-                            println_stderr!("cicada: {}", e);
-                            continue;
-                        }
-                    };
-
-                    _output = cr.stdout.trim().to_string();
+                    _output = run_for_substitution(sh, &cap[2]);
                 }
                 _item = format!("{}{}{}", _item, _head, _output);
                 if _tail.is_empty() {
